@@ -323,6 +323,12 @@ func registerIntrinsics(in *Interp) {
 	I["vLockDepth"] = func(in *Interp, a []Value, _ ssa.CallInstruction) Value {
 		return in.B.Const(in.WordBits, uint64(in.locked))
 	}
+	I["vConcurrently"] = func(in *Interp, a []Value, site ssa.CallInstruction) Value {
+		in.doCall(a[0], nil, site)
+		in.doCall(a[1], nil, site)
+		return nil
+	}
+	I["vNativeRepeat"] = func(in *Interp, a []Value, _ ssa.CallInstruction) Value { return in.B.Const(in.WordBits, 1) }
 	I["vFailNative"] = func(in *Interp, a []Value, _ ssa.CallInstruction) Value { return nil }
 	I["vSymbolic"] = func(in *Interp, a []Value, _ ssa.CallInstruction) Value { return in.B.True() }
 }
